@@ -81,27 +81,27 @@ RECURSIVE Flatten(_)
 Flatten(ws) == IF ws = << >> THEN << >> ELSE Alphabet[Head(ws)] \o Flatten(Tail(ws))
 
 (* ------------------------------ state graph ---------------------------------------- *)
-Root(a) == [ph |-> "root", args |-> a, mem |-> << >>, vals |-> << >>, note |-> "root"]
-Case(ph, a, m, vs, note) == [ph |-> ph, args |-> a, mem |-> m, vals |-> vs, note |-> note]
+Root(a) == [ph |-> "root", args |-> a, mem |-> << >>, vals |-> << >>, note |-> "root", p |-> 0, k |-> 0]
+Case(ph, a, m, vs, note, p, k) == [ph |-> ph, args |-> a, mem |-> m, vals |-> vs, note |-> note, p |-> p, k |-> k]
 
 Init == \E a \in ArgLists : c = Root(a)
 
 Next ==
   /\ c.ph = "root"
   /\ LET a == c.args IN
-     \/ \E i \in 1..3 : c' = Case("pack", a, EncArgs(a, Vals(a, i)), Vals(a, i), ToString(i))
+     \/ \E i \in 1..3 : c' = Case("pack", a, EncArgs(a, Vals(a, i)), Vals(a, i), ToString(i), 0, 0)
      \/ /\ a \in MutLists
         /\ \E i \in 2..3 :
              LET m == EncArgs(a, Vals(a, i))  L == Len(m) IN
              \/ \E p \in 1..(L \div 32), k \in 1..NRepl :
                   /\ Repl(WordAt(m, p), L)[k] # WordAt(m, p)
-                  /\ c' = Case("mut", a, PutWord(m, p, Repl(WordAt(m, p), L)[k]), << >>, ToString(<< i, p, k >>))
-             \/ \E n \in Cuts(L) : c' = Case("cut", a, SubSeq(m, 1, n), << >>, ToString(<< i, n >>))
-             \/ c' = Case("cut", a, m \o << 1 >>, << >>, "ext1")
-             \/ c' = Case("cut", a, m \o Rep(255, 32), << >>, "ext32")
+                  /\ c' = Case("mut", a, PutWord(m, p, Repl(WordAt(m, p), L)[k]), << >>, ToString(i), p, k)
+             \/ \E n \in Cuts(L) : c' = Case("cut", a, SubSeq(m, 1, n), << >>, ToString(<< i, n >>), 0, 0)
+             \/ c' = Case("cut", a, m \o << 1 >>, << >>, "ext1", 0, 0)
+             \/ c' = Case("cut", a, m \o Rep(255, 32), << >>, "ext32", 0, 0)
      \/ /\ a \in StrLists
         /\ \E n \in 1..MaxStr : \E ws \in [1..n -> 1..Len(Alphabet)] :
-              c' = Case("str", a, Flatten(ws), << >>, ToString(ws))
+              c' = Case("str", a, Flatten(ws), << >>, ToString(ws), 0, 0)
 
 Spec == Init /\ [][Next]_vars
 
@@ -142,7 +142,7 @@ CompactVal(T, v) ==
 CompactVals(Ts, vs) == [j \in 1..Len(vs) |-> CompactVal(Ts[j], vs[j])]
 
 Emit ==
-  IsCase => PrintT(<< "CASE", ToJson([ph |-> c.ph, note |-> c.note, args |-> c.args, len |-> Len(c.mem), mem |-> Compact(c.mem),
+  IsCase => PrintT(<< "CASE", ToJson([ph |-> c.ph, note |-> c.note, p |-> c.p, k |-> c.k, args |-> c.args, len |-> Len(c.mem), mem |-> Compact(c.mem),
                                       verdict |-> Verdict(c.args, c.mem),
                                       val |-> IF R.ok THEN CompactVals(c.args, R.val) ELSE << >>]) >>)
 =============================================================================
